@@ -167,6 +167,29 @@ theorem C06_reported_objective {Env X : Type} (E n nd : Nat) (hn : 1 ≤ n) (pro
   rw [hcontract, hf xstar]
   exact C06_objective E n nd hn prob (J xstar) Jpath G (env xstar) (dae xstar) (delay xstar) (hdae xstar)
 
+/-- **A transcription depends on the current data only, not on the history of earlier calls**: in
+    every call of any sequence of calls on one instance, from any remembered state, the parameter
+    values inlined into the path objective and path constraints are the current ones — hence any
+    function `F` of them (objective, rows) is the one of the current data. -/
+theorem C06_transcribe_history_free (st : TState) (calls : List (List Rat)) :
+    runCalls transcribeStep st calls = calls ∧
+    ∀ {β : Type} (F : List Rat → β), (runCalls transcribeStep st calls).map F = calls.map F := by
+  have h : ∀ (calls : List (List Rat)) (st : TState), runCalls transcribeStep st calls = calls := by
+    intro calls
+    induction calls with
+    | nil => intro st; rfl
+    | cons cur rest ih =>
+      intro st
+      simp only [runCalls, transcribeStep]
+      rw [ih]
+  exact ⟨h calls st, fun F => by rw [h calls st]⟩
+
+/-- refreshing the remembered values only once is not history free: the second call of
+    `[1], [3/2]` would inline the first call's value -/
+theorem C06_stale_inlining_witness :
+    runCalls transcribeStepStale ⟨none⟩ [[1], [3/2]] = [[1], [1]] := by
+  decide +kernel
+
 /-! ## non-vacuity -/
 
 -- two members, three time stamps, one DAE row per step: f = 1/2 (1 + 10+20+30) + 1/4 (2 + 1+2+3)
